@@ -69,13 +69,13 @@ where
         match *cursor {
             Cursor::BeginAligned(cursor) => Ok(cursor),
             Cursor::EndAligned(cursor) => {
-                if cursor.abs() as usize > self.textlen() {
+                if cursor.unsigned_abs() > self.textlen() {
                     Err(StamError::CursorOutOfBounds(
                         Cursor::EndAligned(cursor),
                         "TextResource::beginaligned_cursor(): end aligned cursor ends up before the beginning",
                     ))
                 } else {
-                    Ok(self.textlen() - cursor.abs() as usize)
+                    Ok(self.textlen() - cursor.unsigned_abs())
                 }
             }
         }
